@@ -43,6 +43,8 @@ PROPS = {
          "rule": "commit DAG (<=30 nodes) x timestamp regime; all ordered pairs for IsAncestorOf, full walk from every node, 40 sampled 2-4-tuples for SeekCommonAncestor; non-trivial = >=1 merge commit and timestamps inconsistent with topology; distinct by plan hash"},
     ]},
     "C15": {"level": "exploration", "profiles": [
+        {"id": "C15fs", "quick_n": 1500, "thorough_n": 150000, "quick_s": 40, "thorough_s": 300, "seed_off": 900000,
+         "rule": "file ref store (pkg/ref/fs, unused by the CLI): set / logged set / delete / get / rename / copy / log read / list by one directory-aligned prefix vs the map+logs model; non-trivial = >=6 ops incl. a listing and a rename/copy; distinct by plan hash"},
         {"id": "C15", "quick_n": 1500, "thorough_n": 150000, "quick_s": 60, "thorough_s": 900,
          "rule": "op sequences (<=40) over a hostile name alphabet on the real SQL ref store (real SQLite file, reopen, statement-level SQL faults); every return value and a full dump compared with a map+logs model after every step; non-trivial = >=8 ops incl. >=1 prefix listing or bulk op and >=1 rename/copy; distinct by plan hash"},
     ]},
